@@ -109,7 +109,8 @@ func all256() []byte {
 
 func stringAlphabet() []any {
 	return []any{"", "a", " lead", "trail ", `q"uote`, "a,b", "line\nbreak", "lone\rcr", "cr\r\nlf",
-		"héllo wörld 世界", "<a&b>", `back\slash`, "\ttab", `""`, ","}
+		"héllo wörld 世界", "<a&b>", `back\slash`, "\ttab", `""`, ",",
+		"un{balanced", "}", "[1,{", `{"seq":1}`} // structure characters of the JSON layout inside a text
 }
 
 func alphabetFor(t reflect.Type) []any {
@@ -838,7 +839,7 @@ func TestC07(t *testing.T) {
 	}
 	// every short text over a quoting alphabet, in every string field (on the zero record
 	// and on the base record)
-	syms := []string{"a", " ", `"`, ",", "\n", "\r", "é"}
+	syms := []string{"a", " ", `"`, ",", "\n", "\r", "é", "{"}
 	T := ev.Pick(4, 5)
 	R.Set("text_alphabet", syms)
 	R.Set("max_text_length", T)
